@@ -40,18 +40,18 @@ BagAdd(b, x) == IF x \in DOMAIN b THEN [b EXCEPT ![x] = @ + 1]
 EmptyBag == [x \in {} |-> 0]
 
 NewRun(r) ==
-  [strict |-> r.objs = 1, mats |-> r.mats, isref |-> r.ref, T |-> r.T,
+  [strict |-> r.objs = 1, mats |-> r.mats, isref |-> r.ref, T |-> r.T, raised |-> r.raised,
    cs |-> << FreeCS, FreeCS, FreeCS >>,
    obj |-> [i \in 1..5 |-> [flag |-> FALSE, fills |-> 0]],
    nEnd |-> [i \in 1..5 |-> 0],
    r0 |-> {}, rdy |-> {}, seen1 |-> {}, ctor |-> {},
-   cache |-> {}, miss |-> {},
+   cache |-> EmptyBag, miss |-> {},
    scMiss |-> {}, scSeen |-> {},
    call |-> 0, inCall |-> FALSE, items |-> EmptyBag, slot |-> {}, bpdirty |-> {}, distdirty |-> {},
    redbp |-> RedIdle, reddist |-> RedIdle, outs |-> {}]
-NoRun == [strict |-> FALSE, mats |-> 0, isref |-> FALSE, T |-> 0, cs |-> << FreeCS, FreeCS, FreeCS >>,
+NoRun == [strict |-> FALSE, mats |-> 0, isref |-> FALSE, T |-> 0, raised |-> FALSE, cs |-> << FreeCS, FreeCS, FreeCS >>,
           obj |-> [i \in 1..5 |-> [flag |-> FALSE, fills |-> 0]], nEnd |-> [i \in 1..5 |-> 0],
-          r0 |-> {}, rdy |-> {}, seen1 |-> {}, ctor |-> {}, cache |-> {}, miss |-> {}, scMiss |-> {}, scSeen |-> {},
+          r0 |-> {}, rdy |-> {}, seen1 |-> {}, ctor |-> {}, cache |-> EmptyBag, miss |-> {}, scMiss |-> {}, scSeen |-> {},
           call |-> 0, inCall |-> FALSE, items |-> EmptyBag, slot |-> {}, bpdirty |-> {}, distdirty |-> {},
           redbp |-> RedIdle, reddist |-> RedIdle, outs |-> {}]
 NoRef == [ok |-> FALSE, names |-> <<>>, items |-> <<>>, outs |-> {}, inst |-> 0, wl |-> ""]
@@ -131,22 +131,23 @@ ULazy(r) ==
                    !.rdy = @ \cup {p}, !.seen1 = @ \cup {p}]
     [] r.e = "lazy.use" -> [m EXCEPT !.rdy = @ \ {p}]
 
+CacheCnt(k) == IF k \in DOMAIN m.cache THEN m.cache[k] ELSE 0       \* effective inserts of key k so far
 VCache(r) ==
-  IF m.mats # 1 THEN "ok"                           \* (no workload uses several cached matrices)
+  IF m.mats < 1 THEN "cache-event-without-matrix"
   ELSE CASE r.e = "cache.lookup" ->
-         IF r.f = CacheCount(m.cache, Key(r)) THEN "ok"
-         ELSE IF r.f = 0 THEN "cache-entry-lost" ELSE "cache-entry-from-nowhere"
+         IF CacheLookupOK(CacheCnt(Key(r)), r.f, m.mats) THEN "ok"
+         ELSE IF r.f = 0 THEN "cache-entry-lost" ELSE "cache-entry-from-nowhere"                 \* "nothing lost"
     [] r.e = "cache.insert" ->
-         IF << r.t, Key(r) >> \notin m.miss THEN "insert-without-lookup"
-         ELSE IF r.c = CacheCount(m.cache, Key(r)) THEN "ok"
+         IF << r.t, Key(r) >> \notin m.miss THEN "insert-without-lookup"                          \* Lookup / Compute / Insert
+         ELSE IF CacheInsertOK(CacheCnt(Key(r)), r.c, m.mats) THEN "ok"
          ELSE IF r.c = 0 THEN "second-effective-insert-of-key" ELSE "cache-entry-from-nowhere"   \* "one effective insert per key"
     [] r.e = "cache.clear" -> "ok"
     [] OTHER -> "unknown-event"
 UCache(r) ==
-  IF m.mats # 1 THEN m
-  ELSE CASE r.e = "cache.lookup" -> IF r.f = 0 THEN [m EXCEPT !.miss = @ \cup {<< r.t, Key(r) >>}] ELSE m
-         [] r.e = "cache.insert" -> [m EXCEPT !.cache = CacheInsert(@, Key(r)), !.miss = { x \in @ : x[1] # r.t }]
-         [] r.e = "cache.clear" -> [m EXCEPT !.cache = {}, !.miss = {}]
+  CASE r.e = "cache.lookup" -> IF r.f = 0 THEN [m EXCEPT !.miss = @ \cup {<< r.t, Key(r) >>}] ELSE m
+    [] r.e = "cache.insert" -> [m EXCEPT !.cache = IF r.c = 0 THEN BagAdd(@, Key(r)) ELSE @, !.miss = { x \in @ : x[1] # r.t }]
+    \* clear_cache() is called by set_up, i.e. before the object's maps are used; with one object the content restarts
+    [] r.e = "cache.clear" -> IF m.mats = 1 THEN [m EXCEPT !.cache = EmptyBag, !.miss = {}] ELSE m
 
 VWork(r) ==
   CASE r.e = "bp.item" ->
@@ -259,6 +260,12 @@ Update(r) ==
     [] r.e = "Out" -> [m EXCEPT !.outs = @ \cup {r.name}]
     [] OTHER -> m
 
+\* Known finding C18-threads-raised (known_findings.jsonl): BackProjectorByBin::set_up sizes the per-thread images by
+\* the number of threads at set_up; asking for more threads afterwards makes back_project index past the end (crash).
+\* The driver exercises this in dedicated runs (Run.raised, always the last run of an instance); whatever goes wrong
+\* in such a run is attributed to that finding, everything else is "new".
+Classify(v) == IF m.raised THEN "C18-threads-raised" ELSE v
+
 Init == l = 1 /\ m = NoRun /\ ref = NoRef /\ bad = <<>> /\ skip = TRUE /\ nchk = [ev |-> 0, out |-> 0, runs |-> 0]
 Next ==
   /\ l <= Len(TraceLog)
@@ -275,7 +282,7 @@ Next ==
             ELSE /\ m' = NewRun(r) /\ skip' = ~(ref.ok /\ r.inst = ref.inst) /\ UNCHANGED << ref, bad, nchk >>
        [] r.e \in {"Abort", "Hang"} ->
             \* a crashed / hung child process: always reported (also when the run was being skipped)
-            /\ bad' = Append(bad, << l, Verdict(r) >>) /\ skip' = TRUE /\ ref' = [ref EXCEPT !.ok = FALSE] /\ UNCHANGED << m, nchk >>
+            /\ bad' = Append(bad, << l, Classify(Verdict(r)) >>) /\ skip' = TRUE /\ ref' = [ref EXCEPT !.ok = FALSE] /\ UNCHANGED << m, nchk >>
        [] OTHER ->
             IF skip THEN UNCHANGED << m, ref, bad, skip, nchk >>
             ELSE LET v == Verdict(r) IN
@@ -288,7 +295,7 @@ Next ==
                                  ELSE IF r.e = "EndRun" THEN [nchk EXCEPT !.runs = @ + 1]
                                  ELSE [nchk EXCEPT !.ev = @ + N(r)]
                       /\ UNCHANGED << bad, skip >>
-                 ELSE /\ bad' = (IF Len(bad) < 200 THEN Append(bad, << l, v >>) ELSE bad)
+                 ELSE /\ bad' = (IF Len(bad) < 200 THEN Append(bad, << l, Classify(v) >>) ELSE bad)
                       /\ skip' = TRUE
                       /\ ref' = IF m.isref THEN [ref EXCEPT !.ok = FALSE] ELSE ref
                       /\ UNCHANGED << m, nchk >>
